@@ -5,8 +5,12 @@ open Utv.C14
 
 theorem lit_cons (c : Char) (r : Str) : lit c (c :: r) = some r := by simp [lit]
 
+theorem daysIn_le (y m : Nat) : daysIn y m ≤ 31 := by
+  unfold daysIn; split <;> (try split) <;> omega
+
 theorem pDate_iso (d : Date) (hv : d.valid = true) (r : Str) : pDate (isoDate d ++ r) = some (d, r) := by
   have hv' := hv
+  have hdi := daysIn_le d.y d.m
   simp only [Date.valid, Bool.and_eq_true, decide_eq_true_eq] at hv'
   have hy : d.y < 10 ^ 4 := by omega
   have hm : d.m < 10 ^ 2 := by omega
@@ -811,7 +815,7 @@ theorem primLaws_P0 : PrimLaws P0 where
   dur_re0 := P0.law_dur_re0
   dur_iso := P0.law_dur_iso
   dec_float := fun neg c e _ _ _ => P0.law_dec_float neg c e
-  dec_str := P0.law_dec_str
+  dec_str := fun d _ => P0.law_dec_str d
   dec_str_clean := P0.law_dec_str_clean
   dec_int := P0.law_dec_int
   uuid_rt := fun n _ => P0.law_uuid_rt n
